@@ -10,7 +10,7 @@ From Coq Require Import List ZArith QArith Qcanon Bool Reals.
 From Coquelicot Require Import Coquelicot.
 From Inovesa Require Import Base.FieldKit Base.Sums Base.Float32 Base.RInst Gen.Gen_Coeffs
   Gen.Gen_StepOrder Gen.Gen_WakeScale Model.Kick Model.StepKinds Model.Haiss
-  Proofs.WeightsP Proofs.KickP Proofs.ForceP Proofs.HaissR.
+  Proofs.WeightsP Proofs.KickP Proofs.ForceP Proofs.StepP Proofs.HaissR.
 Import ListNotations.
 Local Open Scope Z_scope.
 
@@ -110,6 +110,42 @@ Example C05_force_law_instance :
   let r' := row_kicks 12 4 (kick_off ow orf) (ykick_prefix step_order) r in
   M0 12 r' = Qcz 8 /\ (M1 12 r' - M1 12 r)%Qc = (Q2Qc (-7 # 16) * Qcz 8)%Qc.
 Proof. cbv zeta. split; apply Qc_is_canon; vm_compute; reflexivity. Qed.
+
+(** whole grid, the executable model run in the generated order, whatever the Fokker-Planck map
+    computes: the grid handed to it ([g3], after wake kick, RF kick and drift) has the bunch
+    charge of the input and its energy moment differs by minus Sum_x (eff W(x) + eff o_rf(x)) *
+    (charge of row x): the drift moves content along q only.  [E1 n D b] = Sum_x Sum_y y*D(b,x,y). *)
+Theorem C05_full_step_energy :
+  forall n nb it (wo rfo dro : list Qc) (fp : list Qc -> list Qc) (data g1 g2 g3 g4 : list Qc) b,
+    valid_it it -> 2 <= it -> 0 < n < 2 ^ 30 -> 0 < nb -> 0 <= b < nb ->
+    run_maps n nb it wo rfo dro fp step_order data = [g1; g2; g3; g4] ->
+    (forall x, 0 <= x < n -> exists a bb,
+        suppQ (rowD n (getQ data) b x) a bb /\
+        row_fits n it (getQ wo (b * n + x)) a bb /\
+        row_fits n it (getQ rfo (b * n + x)) (a - shift_hi n it (getQ wo (b * n + x)))
+                                              (bb - shift_lo n it (getQ wo (b * n + x)))) ->
+    (forall y, 0 <= y < n -> exists c d,
+        suppQ (colD n (getQ g2) b y) c d /\ row_fits n it (getQ dro y) c d) ->
+    E1 n (getQ g3) b =
+      (E1 n (getQ data) b - sumQ 0 (Z.to_nat n)
+         (fun x => ((eff_off n (getQ wo (b * n + x)) + eff_off n (getQ rfo (b * n + x)))
+                    * M0 n (rowD n (getQ data) b x))%Qc))%Qc
+    /\ Q0 n (getQ g3) b = Q0 n (getQ data) b
+    /\ g4 = fp g3.
+Proof. exact step_model_energy. Qed.
+Print Assumptions C05_full_step_energy.
+
+Example C05_full_step_hypotheses :
+  exists g1 g2 g3 g4,
+    run_maps 8 1 2 exs_wo exs_rfo exs_dro (fun d => d) step_order exs_data = [g1; g2; g3; g4] /\
+    (forall x, 0 <= x < 8 -> exists a bb,
+        suppQ (rowD 8 (getQ exs_data) 0 x) a bb /\
+        row_fits 8 2 (getQ exs_wo (0 * 8 + x)) a bb /\
+        row_fits 8 2 (getQ exs_rfo (0 * 8 + x)) (a - shift_hi 8 2 (getQ exs_wo (0 * 8 + x)))
+                                                 (bb - shift_lo 8 2 (getQ exs_wo (0 * 8 + x)))) /\
+    (forall y, 0 <= y < 8 -> exists c d,
+        suppQ (colD 8 (getQ g2) 0 y) c d /\ row_fits 8 2 (getQ exs_dro y) c d).
+Proof. exact step_example. Qed.
 
 (** ** (2) scaling of the wake *)
 
